@@ -15,7 +15,9 @@ PID = "C16"
 
 NVALS = [-3, -1, 0, 1, 2, 3, 7, 10 ** 6, 1.0, 2.0, 7.0, 0.0, -1.0, -2.0, 0.5, 2.5, -0.5, 1e-12, float("nan"),
          0.1 * 3 * 10, 2.000000001, 1.9999999995, 1.0000000000000002, 0.9999999999999999, 1000000.0005,
-         float("inf"), float("-inf"), True, False, "2", None, [2], 2 + 0j]
+         float("inf"), float("-inf"), True, False, "2", None, [2], 2 + 0j,
+         # integers no double represents, integral floats beyond 2^53, both accepted "as that integer"
+         2 ** 53 + 1, 10 ** 17 + 1, 2 ** 64 - 1, 3 ** 45, float(2 ** 53), 1e20, 2.0 ** 70, -(2 ** 53 + 1), 1e20 + 16384.0]
 BASES = [-2, -1, -0.5, -1e-300, 0, 0.0, -0.0, 1, 1.0, 0.5, 2, 2.0, 10, math.e, 1e-300, 1e300, 0.9999999999999999,
          1.0000000000000002, True]
 NAMES = ["", "x", "x y", "x\n", "x1", "1x", "_", "é", "x-y", " x", "x.", "𝑥", "x\t", "\n", "a.b", "x+1", "ɑβ",
@@ -60,7 +62,8 @@ def check_cases(cases: list[dict], rep: Report, known: dict) -> None:
                 elif got[0] == "err" and got[1] in ("timeout", "memory"):
                     rep.violation(f"{cname}(u, n={n!r}) did not return", info)
                 if isnum:
-                    work.append((info, got, bt.ask(f"F0 mk {tag} e {itxt} n {wire.num(n)}")))
+                    inst = "Q" if isinstance(n, int) and abs(n) > 2 ** 53 else "F0"     # exact instance where a double would lose n
+                    work.append((info, got, bt.ask(f"{inst} mk {tag} e {itxt} n {wire.num(n)}")))
                 else:
                     work.append((info, got, bt.ask(f"F0 mk {tag} e {itxt} {pyval(n) if isinstance(n, str) else 'o'}")))
         # bases
